@@ -23,7 +23,9 @@ class C18(Prop):
             "it opened still open and another begins afterwards, in a new slot or in the one just vacated; histories "
             "of 4..40 operations over {REQ,CLOSE}x{a,b,c}, client EVENTx{x,y,z}, server EVENTx{x,y,z}, the downstream's OK "
             "for x/y/z (accepted 40%, else refused with duplicate:/rate-limited:/blocked:/error:/no prefix) and a few "
-            "EOSE/CLOSED/COUNT/AUTH/NOTICE; the kind of the event behind an id is fixed per case: 1, or one of 0, 1, 3, 5, "
+            "EOSE/CLOSED/COUNT/AUTH/NOTICE; in a quarter of the cases the ids are not x/y/z and a/b/c but 64-digit event "
+            "ids that agree on their first 16, 32 or 63 digits, event ids that are prefixes of one another (x, xx, xxx), or "
+            "subscription ids of 64, 65 and 65 bytes with a common 64-byte prefix; the kind of the event behind an id is fixed per case: 1, or one of 0, 1, 3, 5, "
             "9999, 10000, 19999, 20000, 20001, 29999, 30000, 39999, 40000 (every NIP-01 class and both sides of its "
             "boundaries); non-trivial = at least one message answered or dropped and one passed; "
             "distinct = distinct inputs")
